@@ -174,3 +174,13 @@ Definition bad_silent (s : st0) : bool :=
 Definition search (m : rmodel) (bad : st0 -> bool) (k : nat) (boom : bool) (depth : nat) : option (list nat) :=
   let progs := map (fun i => ([Call k (if boom && Nat.eqb i 0 then repeat 999 (Nat.max 1 (arity m k)) else tagged i k (arity m k))], 1)) (seq 0 3) in
   match dfs m bad 3 depth (init 0 progs) [] with Some p => Some (map render_choice (rev p)) | None => None end.
+
+(* C04 / C09 monitor: two clients hold one handle each, client 0 calls a self-consuming method; anomaly = the loop ends with
+   `Stopped` although the other handle still exists.  Returns (senders before the actor step, senders after). *)
+Definition sole_search (m : rmodel) : list (nat * nat) :=
+  let s := run0 m 0 [([Consume 0 []], 1); ([], 1)] [Cl 0; Cl 0] in
+  match Actor.step sem0 sem_slf0 0 m s Ac with
+  | Some s' => match exited s' with
+               | Some Stopped => if 1 <? senders s then [(senders s, senders s')] else []
+               | _ => [] end
+  | None => [] end.
